@@ -114,6 +114,9 @@ type cluster struct {
 	errs      map[string]int
 	cache     int
 	mkStore   func(m *member) hg.Store
+	// every other join request spells the joiner's key in lower-case hex (a valid spelling of the same key)
+	spellJoins bool
+	joinsSpelled int
 }
 
 func newMember(rng *rand.Rand, idx int) *member {
@@ -190,7 +193,12 @@ func (cl *cluster) startJoin(host *member) *member {
 	j := newMember(cl.rng, len(cl.members))
 	j.joiner = true
 	cl.mkCore(j, host.core.Peers().Peers)
-	itx := hg.NewInternalTransactionJoin(*j.peer)
+	p := *j.peer
+	if cl.spellJoins && cl.rng.Intn(2) == 0 {
+		p.PubKeyHex = lowerAfterPrefix(p.PubKeyHex)
+		cl.joinsSpelled++
+	}
+	itx := hg.NewInternalTransactionJoin(p)
 	itx.Sign(j.key)
 	host.core.AddInternalTransaction(itx)
 	cl.members = append(cl.members, j)
